@@ -65,6 +65,7 @@ func main() {
 		if exe := byPath["github.com/meshplus/bitxhub/internal/executor"]; exe != nil {
 			extractContractMethods(exe, contracts, genDir)
 			extractFailedEvents(exe, genDir)
+			extractProofFanout(exe, genDir)
 		} else {
 			broken("contractMethods", "package internal/executor not loaded")
 		}
